@@ -384,11 +384,40 @@ Example C17_refresh_nonvacuous :
 Proof. vm_compute. reflexivity. Qed.
 
 (* non-vacuity of the loop model: Manual mode drops the remote record, an announcement by a third
-   party is ignored, the sender's own announcement is stored with 32 of 40 addresses *)
+   party is ignored, the sender's own announcement (after an undecodable entry) is stored with 32
+   of 40 addresses *)
 Example C17_loop_nonvacuous :
   let kc := mkK (mkCfg 4 10 4 50 4 100) 5 false 8 20 0 in
-  let h := [KPutValue 3 1 7 2 0 5; KAddProvider 3 1 [(4, 9, 1)]; KAddProvider 3 1 [(3, 6, 40)]] in
+  let h := [KPutValue 3 1 7 2 0 5; KAddProvider 3 1 [(4, 9, 1, 1)]; KAddProvider 3 1 [(5, 2, 1, 0); (3, 6, 40, 1)]] in
   recs (kstore (kfinal kc h)) = [] /\
   map (fun kp : N * list prov => (fst kp, map (fun p => (p_id p, p_naddr p)) (snd kp))) (pkeys (kstore (kfinal kc h)))
     = [(1, [(3, 32)])].
 Proof. vm_compute. split; reflexivity. Qed.
+
+(* the Rust source still has the shape the model was written for: exactly the eight public store
+   methods, exactly the thirteen call sites of the store in kademlia/mod.rs (one per event of the
+   loop model), the enum variants the harness enumerates, the configuration fields with their
+   default constants and builder setters, one clock read behind the helper with three call sites *)
+Theorem C17_source_tables_covered :
+  V.gen.C17Tables.store_methods = model_store_methods /\
+  V.gen.C17Tables.store_call_sites = model_call_sites /\
+  V.gen.C17Tables.store_actions = [0] /\
+  V.gen.C17Tables.quorum_variants = [0; 1; 2] /\
+  V.gen.C17Tables.validation_modes = [0; 1] /\
+  V.gen.C17Tables.config_fields = [0; 1; 2; 3; 4; 5; 6] /\
+  V.gen.C17Tables.config_defaults = [(0, 0); (1, 1); (2, 2); (3, 3); (4, 4); (5, 5); (6, 6)] /\
+  V.gen.C17Tables.builder_setters = [(0, 0); (1, 1); (2, 2); (3, 3); (4, 4); (5, 5); (6, 6)] /\
+  V.gen.C17Tables.clock_reads = [1; 3].
+Proof. exact tables_match. Qed.
+Print Assumptions C17_source_tables_covered.
+
+(* observation (outside the property text; witness corpus/C17/w1_*.case runs against the real
+   store): the keys registered in `local_providers` are not bounded by max_provider_keys *)
+Theorem C17_local_registrations_outlive_provider_keys :
+  exists c i h,
+    1 <= max_per_key c /\ max_keys c = 1 /\ mono 0 h /\
+    length (pkeys (ts_store (tfinal c i h))) = 1%nat /\
+    length (locals (ts_store (tfinal c i h))) = 2%nat /\
+    length (ts_quorum (tfinal c i h)) = 2%nat.
+Proof. exact local_registrations_outlive_provider_keys. Qed.
+Print Assumptions C17_local_registrations_outlive_provider_keys.
